@@ -23,7 +23,8 @@ PY
   ovl=(-overlay "build/overlay/chainmc.$id.json")
 fi
 cp -f "$REPO/go.sum" go.sum 2>/dev/null
-if ! go build "${ovl[@]}" -o "build/chainmc.$id" ./chainmc >&2; then
+bin="build/chainmc.$id${VERIF_SUBST:+.subst}"
+if ! go build "${ovl[@]}" -o "$bin" ./chainmc >&2; then
   echo "chainmc: build failed" >&2; exit 2
 fi
-exec "build/chainmc.$id" -prop "$id" -tier "$tier" ${VERIF_NO_EVIDENCE:+-no-evidence}
+exec "$bin" -prop "$id" -tier "$tier" ${VERIF_NO_EVIDENCE:+-no-evidence}
